@@ -9,7 +9,7 @@ from ..core import Ctx, property_info, rule
 from ..events import check_function, is_event_generator, node_events
 from ..model import AnalysisError, FuncInfo, norm_text, walk_no_nested
 from ..q import (
-    A, MUTATORS, attr_method_calls, is_call_to_self, is_self_attr, kwarg, names_in, root_name, self_attr_stores, stores,
+    A, MUTATORS, call_name_of, attr_method_calls, is_call_to_self, is_self_attr, kwarg, names_in, root_name, self_attr_stores, stores,
     unparse,
 )
 
@@ -459,25 +459,16 @@ def dispatch_totality(ctx: Ctx) -> None:
     ev = ctx.repo.cls(f"{MIXINS}:XmlWriterEvent")
     members = set(enum_members(ev.node))
     w = ctx.repo.method(EH, "write")
+    from ..q import Dispatch
+
     handled: dict[str, str] = {}
-    else_raises = False
-    for n in walk_no_nested(w.node):
-        if isinstance(n, ast.If):
-            chain = n
-            while True:
-                t = chain.test
-                if isinstance(t, ast.Compare) and len(t.ops) == 1 and isinstance(t.ops[0], ast.Eq):
-                    for side in (t.left, t.comparators[0]):
-                        if isinstance(side, ast.Attribute) and isinstance(side.value, ast.Name) and side.value.id == "XmlWriterEvent":
-                            calls = [c.func.attr for c in calls_in(ast.Module(body=chain.body, type_ignores=[])) if is_self_attr(c.func, None)]
-                            handled[side.attr] = calls[0] if calls else ""
-                if len(chain.orelse) == 1 and isinstance(chain.orelse[0], ast.If):
-                    chain = chain.orelse[0]
-                    continue
-                else_raises = any(isinstance(s, ast.Raise) and "XmlWriterError" in unparse(s.exc) for s in chain.orelse)
-                break
-            if handled:
-                break
+    d = Dispatch(w.node, is_subject=lambda e: isinstance(e, ast.Name))
+    for key in sorted(d.keys):
+        if not key.startswith("XmlWriterEvent."):
+            continue
+        calls = [c.func.attr for n in d.specific(key) if n.kind != "test" for c in node_calls(n) if is_self_attr(c.func, None)]
+        handled[key.split(".", 1)[1]] = calls[0] if len(set(calls)) == 1 else ",".join(sorted(set(calls)))
+    else_raises = any(n.kind == "stmt" and isinstance(n.ast, ast.Raise) and n.ast.exc is not None and "XmlWriterError" in unparse(n.ast.exc) for n in d.specific(None))
     expect = {"START": "start_tag", "END": "end_tag", "ATTR": "add_attribute", "DATA": "set_data"}
     for m in sorted(members):
         ctx.ob(f"write dispatches {m} to {expect.get(m, '?')}", handled.get(m) == expect.get(m, handled.get(m)) and m in handled, at=w, construct=f"dispatch {m}",
@@ -655,14 +646,25 @@ def default_namespace_never_qualifies_attributes_or_values(ctx: Ctx) -> None:
                 callee = ctx.repo.cls(EH).find_method(c.func.attr)
     ok = False
     if callee is not None:
-        # the guard that skips prefix generation must require a truthy (named) prefix bound to the uri
-        src = A(unparse(callee.node))
-        ok = "generate_prefix(" in src and ("prefixand" in src or "ifprefix" in src or "prefixisnotNone" in src) and "prefix_exists(" not in src
+        # the guard that skips prefix generation must not accept a default-namespace binding: no `prefix_exists(uri, map)` / `uri in map.values()` test
+        from ..q import family
+
+        fam = family(ctx.repo, callee)
+        gen = any(call_name_of(c) == "generate_prefix" for f in fam for c in calls_in(f.node))
+        contraband = [c for f in fam for c in calls_in(f.node) if call_name_of(c) == "prefix_exists"] + [
+            n for f in fam for n in walk_no_nested(f.node) if isinstance(n, ast.Compare) and isinstance(n.ops[0], (ast.In, ast.NotIn)) and isinstance(n.comparators[0], ast.Call)
+            and call_name_of(n.comparators[0]) == "values"]
+        ok = gen and not contraband
     ctx.ob("flush_start: every attribute namespace is given a NAMED prefix (a default-namespace binding does not count)", ok, at=flush, node=loops[0] if loops else None, construct="attribute prefix",
            msg="with ns_map={None: uri} a qualified attribute in that namespace is written without a prefix by the native writer, i.e. as an unqualified attribute")
     qs = ctx.repo.func("xsdata.formats.converter:QNameConverter.serialize")
     resets = [m.qual for c in [ctx.repo.cls(EH), *ctx.repo.cls(EH).all_subclasses()] for m in c.methods.values()
               for st, tgt, v in stores(m.node) if isinstance(tgt, ast.Subscript) and isinstance(tgt.slice, ast.Constant) and tgt.slice.value is None and is_self_attr(tgt.value, "ns_map")]
-    unprefixed = any(isinstance(r.value, ast.IfExp) and unparse(r.value.orelse) == "tag" and "prefix" in unparse(r.value.test) for r in walk_no_nested(qs.node) if isinstance(r, ast.Return))
+    from ..q import control_deps
+    from ..cfg import build_cfg as _bc
+
+    gq = _bc(qs.node)
+    # a return of the bare local name on the path where a namespace exists but load_prefix() found no (named) prefix for it
+    unprefixed = any(isinstance(r.ast.value, ast.Name) and any("load_prefix" in t and not pol for t, pol, _ in control_deps(qs, r)) for r in gq.returns())
     ctx.ob("QName values are not written unprefixed through a default namespace that the writer may reset on the same element", not (unprefixed and resets), at=qs, construct="qname default prefix",
            msg="QNameConverter.serialize returns the bare local name when the namespace is bound as default; reset_default_namespace then emits xmlns=\"\" on an unqualified element and the value denotes another QName")
